@@ -181,6 +181,48 @@ theorem no_silent_wrap : NoSilentWrap parseUri parseHostServ := by
           subst this
           exact absurd (numeric_of_strtoul hv) hnum
 
+/-- the strict form of the same statement, without `strtoul`'s modulo: the number as written
+(sign applied) is itself in 0..65535 - so "-18446744073709551615" (which `strtoul` would read as 1)
+is rejected as well, and a minus sign is only accepted in front of zero -/
+theorem no_silent_wrap_strict : NoSilentWrapStrict parseUri parseHostServ := by
+  constructor
+  · intro uri c neg m hok hv
+    unfold parseUri at hok
+    split at hok
+    · cases hok
+    · cases hd : dissect uri with
+      | error e => rw [hd] at hok; cases hok
+      | ok d =>
+        rw [hd] at hok
+        have hc : c = d.toGai := by cases hok; rfl
+        subst hc
+        have hv' : numericReads (cstr d.serv) = some (neg, m) := hv
+        have hnum := numeric_of_numericReads hv'
+        have hraw := dissect_ok_raw hd
+        have hg : guardRange d = .ok d := by
+          have := hd
+          unfold dissect at this
+          simpa only [hraw] using this
+        exact numeric_in_range_of_checked (guardRange_ok_checked hg (Or.inr hnum)) hv'
+  · intro host serv c neg m hok hv
+    unfold parseHostServ at hok
+    split at hok
+    · cases hok
+    · split at hok
+      · cases hok
+      · split at hok
+        · cases hc : checkRange serv with
+          | error e => rw [hc] at hok; cases hok
+          | ok u =>
+            rw [hc] at hok
+            have : c = ⟨cstr host, cstr serv, false⟩ := by cases hok; rfl
+            subst this
+            exact numeric_in_range_of_checked hc hv
+        · rename_i hnum
+          have : c = ⟨cstr host, cstr serv, false⟩ := by cases hok; rfl
+          subst this
+          exact absurd (numeric_of_numericReads hv) hnum
+
 /-- port fidelity under assumption G1: whatever resolver `gai` maps a completely-read numeric
 service `v` to port `v mod 2^16`, the port of the result is `v` itself - nothing was wrapped -/
 theorem port_not_wrapped_under_G1 (gai : GaiCall → Option Nat)
@@ -229,5 +271,8 @@ example : parseHostServ (ofChars "h".toList) (ofChars "-1".toList) = .error .run
 example : strtoulReads (ofChars "-1".toList) = some 18446744073709551615 := by decide
 example : strtoulReads (ofChars " +80".toList) = some 80 := by decide
 example : strtoulReads (ofChars "http".toList) = none := by decide
+example : strtoulReads (ofChars "-18446744073709551615".toList) = some 1 := by decide
+example : numericReads (ofChars "-18446744073709551615".toList) = some (true, 18446744073709551615) := by decide
+example : parseHostServ [0x68] (ofChars "-18446744073709551615".toList) = .error .outOfRange := by decide
 
 end SockModel.Uri
